@@ -42,8 +42,9 @@ def fft_screen(r0, N, delta, L0, l0, seed):
 
 
 def subharmonic_screen(r0, N, delta, L0, l0, seed):
+    # ONE stream: the FFT screen and the sub-harmonic coefficients are independent draws of the same generator
     R = numpy.random.default_rng(seed)
-    hi = fft_screen(r0, N, delta, L0, l0, seed)
+    hi = fft_screen(r0, N, delta, L0, l0, R)
     c = numpy.arange(-N / 2., N / 2.) * delta
     x, y = numpy.meshgrid(c, c)
     lo = numpy.zeros((N, N))
@@ -66,7 +67,7 @@ def subharmonic_screen(r0, N, delta, L0, l0, seed):
 def subharmonic_screen_flat(r0, N, delta, L0, l0, seed):
     # the same sum with the nine frequencies of each grid enumerated in one flat (row-major) loop over the 3 x 3 arrays
     R = numpy.random.default_rng(seed)
-    hi = fft_screen(r0, N, delta, L0, l0, seed)
+    hi = fft_screen(r0, N, delta, L0, l0, R)
     c = numpy.arange(-N / 2., N / 2.) * delta
     x, y = numpy.meshgrid(c, c)
     lo = numpy.zeros((N, N))
@@ -179,6 +180,17 @@ def run(rep, tier, root=None):
     if "ft_sh_phase_screen" in results:
         f, v, cv = results["ft_sh_phase_screen"]
         draws = find_atoms(v, lambda a: isinstance(a, Fn) and a.name == "draw")
+        # the parts of the screen are independent only if no two generators are started from the same seed: default_rng(seed)
+        # twice gives the same stream twice (the sub-harmonic coefficients would be the first draws of the FFT screen)
+        gens = {}
+        for g_ in find_atoms(v, lambda a: isinstance(a, Fn) and a.name == "rng"):
+            gens.setdefault(repr(g_.args[0]), set()).add(g_)
+        dup = {k_: g_ for k_, g_ in gens.items() if len(g_) > 1}
+        rep.check(not dup, "P4.independent-streams", f.fq + ": all draws of one screen come from one generator stream",
+                  "%d generators are constructed from the same seed (%s): they produce the same numbers, so the sub-harmonic coefficients "
+                  "are the first draws of the high-frequency screen again - the two parts are correlated and the structure function of "
+                  "their sum can be smaller than that of the FFT screen alone" % (max(len(g_) for g_ in dup.values()) if dup else 0,
+                                                                                 ", ".join(sorted(dup))), f.where())
         rep.check(len(draws) == 4, "P4.draws", f.fq + ": 2 full-grid + 2 sub-harmonic draws per grid",
                   "expected 4 distinct draw sites (2 of (N,N), 2 of (3,3) per sub-harmonic grid), found %d" % len(draws), f.where())
         check_degree(rep, "P4.r0-scaling", f.fq + " ~ r0^(-5/6)", v, "r0", Fr(-5, 6), f.where(), "sub-harmonic screen")
